@@ -179,6 +179,39 @@ def validate_contract(events, journal):
     return problems
 
 
+_REPR_OK = None
+
+
+def representation_ok():
+    """Several harnesses construct or read tracer state through `CallTracer.traces` (frame -> CallTrace) and
+    `CallTracer.cache` (code -> function), because their model frames carry a code VIEW that function lookup cannot
+    resolve.  If a change of the tracer's internal representation makes that impossible, those harnesses can no longer
+    judge anything: they answer INCONCLUSIVE (exit 2, 'harness needs updating') instead of raising an alarm.  The
+    representation-independent harnesses (recorded real runs, the whole pipeline, `abandon`) still judge behaviour."""
+    global _REPR_OK
+    if _REPR_OK is None:
+        try:
+            from vfix import funcs as F
+            from monkeytype.tracing import CallTracer
+
+            lg = ListLogger()
+            t = CallTracer(lg, 0, None, None)
+            code = F.mod_func.__code__
+            fr = FakeFrame(code, {"a": 1, "b": 2}, vars(F), None, 0)
+            ok = isinstance(getattr(t, "traces", None), dict) and isinstance(getattr(t, "cache", None), dict)
+            if ok:
+                t(fr, "call", None)
+                ok = fr in t.traces and t.cache.get(code) is F.mod_func and getattr(t.traces[fr], "func", None) is F.mod_func
+            _REPR_OK = bool(ok)
+        except Exception:  # noqa: BLE001
+            _REPR_OK = False
+    return _REPR_OK
+
+
+REPR_MSG = ("the tracer no longer keeps in-flight calls in CallTracer.traces (frame -> CallTrace) and resolved functions in "
+            "CallTracer.cache (code -> function): this harness builds / reads its states through them and needs updating")
+
+
 def residue(tracer, frame):
     """Names of the tracer's container attributes (other than the per-code function cache) that
     still mention `frame`: per-call state that outlived the call."""
